@@ -101,7 +101,7 @@ Definition check_sat (U : provider) (P : problem) (db : list cl) (tr : list lit)
   nl_eqb sol (rev S) &&
   a VRoot &&
   forallb (fun c => cl_true a (cl_lits c)) db &&
-  closedb U P db S (exempt P S).
+  closedb U P db S (exempt U P S).
 
 (* the same, tolerating falsified package-level clauses of exempt (accepted soft)
    solvables -- the documented exemption *)
@@ -111,8 +111,8 @@ Definition check_sat_lenient (U : provider) (P : problem) (db : list cl) (tr : l
   vars_nodup tr &&
   nl_eqb sol (rev S) &&
   a VRoot &&
-  forallb (sat_or_exempt U a (exempt P S)) db &&
-  closedb U P db S (exempt P S).
+  forallb (sat_or_exempt U a (exempt U P S)) db &&
+  closedb U P db S (exempt U P S).
 
 Lemma pval_In tr v b : pval tr v = Some b -> In (v, b) tr.
 Proof.
@@ -162,14 +162,14 @@ Qed.
 
 Theorem check_sat_lenient_sound U P (HW : WF U) db tr sol :
   check_sat_lenient U P db tr sol = true ->
-  sol = rev (sel_of tr) /\ valid U P (sel_of tr) (exempt P (sel_of tr)).
+  sol = rev (sel_of tr) /\ valid U P (sel_of tr) (exempt U P (sel_of tr)).
 Proof.
   unfold check_sat_lenient. intro H.
   apply andb_true_iff in H. destruct H as [H Hcl]. apply andb_true_iff in H. destruct H as [H Hall].
   apply andb_true_iff in H. destruct H as [H Hroot]. apply andb_true_iff in H. destruct H as [Hnd Hsol].
   apply nl_eqb_eq in Hsol. split; [exact Hsol|].
   rewrite forallb_forall in Hall.
-  apply (E2 U P HW db (asg_of U db tr) (sel_of tr) (exempt P (sel_of tr)));
+  apply (E2 U P HW db (asg_of U db tr) (sel_of tr) (exempt U P (sel_of tr)));
     [exact Hall | apply (asg_sel_iff U db tr Hnd) | exact Hroot | exact Hcl].
 Qed.
 
@@ -184,7 +184,7 @@ Qed.
 
 Theorem check_sat_sound U P (HW : WF U) db tr sol :
   check_sat U P db tr sol = true ->
-  sol = rev (sel_of tr) /\ valid U P (sel_of tr) (exempt P (sel_of tr)).
+  sol = rev (sel_of tr) /\ valid U P (sel_of tr) (exempt U P (sel_of tr)).
 Proof.
   intro H. apply (check_sat_lenient_sound U P HW db tr sol). apply check_sat_lenient_of_strict. exact H.
 Qed.
